@@ -25,6 +25,10 @@ macro_rules! layouts {
         $(
             #[repr(C, align($align))]
             struct $name { b: [u8; $size] }
+            unsafe impl Trace for $name {
+                fn trace(&self, _: &mut Context<'_>) {}
+            }
+            impl Finalize for $name {}
             impl Pay for $name {
                 const NAME: &'static str = concat!("s", stringify!($size), "a", stringify!($align));
                 fn make(tag: u8) -> Self { $name { b: [tag; $size] } }
@@ -250,7 +254,11 @@ fn scenario<P: Pay>(ctx: &mut Ctx, name: &str, prop: &'static str, expect_drops:
     for e in errs {
         let mut it = e.splitn(3, '|');
         let (p, o, d) = (it.next().unwrap_or("C03"), it.next().unwrap_or("?"), it.next().unwrap_or(""));
-        let p: &'static str = if p == "C13" { "C13" } else { "C03" };
+        let p: &'static str = match p {
+            "C13" => "C13",
+            "C11" => "C11",
+            _ => "C03",
+        };
         if ctx.props.iter().any(|x| x == p) {
             ctx.rep.viol(p, o, &format!("{}:{}:{}", p, o, case), &format!("{} [{}: size_of {} align_of {}]", d, case, std::mem::size_of::<P>(), std::mem::align_of::<P>()), &["--only".to_string(), case.clone()]);
         } else {
@@ -279,7 +287,40 @@ fn check_box_layout<P: Pay>(errs: &mut Vec<String>, cc: &Cc<LNode<P>>) {
     }
 }
 
-fn run_layout<P: Pay>(ctx: &mut Ctx) {
+fn run_layout<P: Pay + Trace>(ctx: &mut Ctx) {
+    // 0. the payload itself as the managed value (no drop glue, possibly zero-sized): enters the buffer when one of
+    //    two handles is dropped, leaves it on mark_alive / clone / collection, like any other managed value (C11)
+    scenario::<P>(ctx, "plain_buffering", "C11", 0, |e| {
+        let b0 = state::buffered_objects_count().unwrap_or(0);
+        let a = Cc::new(P::make(11));
+        if (&*a as *const P as usize) % std::mem::align_of::<P>() != 0 || !a.ok(11) {
+            e.push("C03|misaligned_value|plain payload misaligned or damaged".into());
+        }
+        let b = a.clone();
+        drop(b);
+        if state::buffered_objects_count().unwrap_or(0) != b0 + 1 {
+            e.push(format!("C11|not_buffered|buffered_objects_count() is {} after one of two Ccs to a plain value was dropped (expected {})", state::buffered_objects_count().unwrap_or(0), b0 + 1));
+        }
+        a.mark_alive();
+        if state::buffered_objects_count().unwrap_or(0) != b0 {
+            e.push("C11|still_buffered|mark_alive did not take a plain value out of the buffer".into());
+        }
+        let b = a.clone();
+        drop(b);
+        let c = a.clone();
+        if state::buffered_objects_count().unwrap_or(0) != b0 {
+            e.push("C11|still_buffered|clone did not take a plain value out of the buffer".into());
+        }
+        drop(c);
+        collect_cycles();
+        if state::buffered_objects_count().unwrap_or(1) != 0 {
+            e.push("C11|still_buffered|a collection left a plain value in the buffer".into());
+        }
+        if a.strong_count() != 1 || !a.ok(11) {
+            e.push("C03|value_damaged|plain value damaged by buffering traffic".into());
+        }
+        drop(a);
+    });
     // 1. plain reference counting
     scenario::<P>(ctx, "rc", "C03", 1, |e| {
         let a = Cc::new(LNode::<P>::new(1));
@@ -503,7 +544,7 @@ fn main() {
         shard: args.u64("--shard", 0),
         nshards: args.u64("--nshards", 1).max(1),
         idx: 0,
-        props: args.str("--props", "C03,C13").split(',').map(|s| s.to_string()).collect(),
+        props: args.str("--props", "C03,C13,C11").split(',').map(|s| s.to_string()).collect(),
     };
     all_layouts(&mut ctx);
     ctx.rep.emit();
